@@ -37,9 +37,12 @@ GEOMS = [("default", "default"), ("header", "header"),
 
 
 def run_accumulate(fd, field, nodata, fdtype, nprint, cap, bounds=False,
-                   geoms=("default", "default")):
+                   geoms=("default", "default"), fdnodata=None):
     nr, nc = fd.shape
-    g = Grid("fd", nc, nr, dtype=fdtype, **GEOM[geoms[0]])
+    kw = dict(GEOM[geoms[0]])
+    if fdnodata is not None:
+        kw["nodata"] = fdnodata
+    g = Grid("fd", nc, nr, dtype=fdtype, **kw)
     g.data = fd.astype(fdtype)
     ta = None
     if field is not None:
@@ -56,7 +59,8 @@ def run_accumulate(fd, field, nodata, fdtype, nprint, cap, bounds=False,
 
 
 def check(fd, field, nodata, fdtype=np.int64, nprint=100, cap=-1,
-          labels=None, bounds=False, geoms=("default", "default")):
+          labels=None, bounds=False, geoms=("default", "default"),
+          fdnodata=None):
     """Returns the non-triviality flag."""
     quiet()
     nr, nc = fd.shape
@@ -69,7 +73,7 @@ def check(fd, field, nodata, fdtype=np.int64, nprint=100, cap=-1,
     capped = cap != -1
     try:
         g, ta, accg = run_accumulate(fd, field, nodata, fdtype, nprint, cap,
-                                     bounds, geoms)
+                                     bounds, geoms, fdnodata)
     except ValueError as e:
         if anycyc or capped:
             if labels is not None:
@@ -85,6 +89,9 @@ def check(fd, field, nodata, fdtype=np.int64, nprint=100, cap=-1,
     acc = np.asarray(accg.data, dtype=np.float64).ravel()
     f = np.ones(N) if field is None else field.astype(np.float64).ravel()
     nd = float(g.nodata) if field is None else float(nodata)
+    if field is None and fdnodata is not None:
+        # the marker the flow direction grid was given by the caller
+        nd = float(fdnodata)
     exp = np.zeros(N)
     for c in range(N):
         for x in chains[c]:
@@ -209,6 +216,11 @@ def random_case(draw, tier):
     c["nodata"] = draw(st.sampled_from([-9999., 0., float("nan"), -1.]))
     c["fdtype"] = draw(st.sampled_from(["int64", "int64", "int32",
                                         "float64"]))
+    # a flow direction raster read as floats keeps its own no-data marker
+    # (NaN, the float32 minimum, a fractional value, the byte 255)
+    c["fdnodata"] = draw(st.sampled_from(
+        [None, None, float("nan"), -3.4028234663852886e38, -9999.5, 255.,
+         -1., -1.7976931348623157e308])) if c["fdtype"] == "float64" else None
     c["nprint"] = draw(st.sampled_from([0, 1, 100]))
     c["cap"] = draw(st.sampled_from([-1] * 21 + [0, 1, 3]))
     c["bounds"] = draw(st.booleans())
@@ -237,7 +249,10 @@ def random_oracle(case):
     labels.add(f"georeference:{geoms[0]}/{geoms[1]}")
     nt = check(fd, field, nodata, fdtype=np.dtype(case["fdtype"]).type,
                nprint=case["nprint"], cap=case["cap"], labels=labels,
-               bounds=case.get("bounds", False), geoms=geoms)
+               bounds=case.get("bounds", False), geoms=geoms,
+               fdnodata=case.get("fdnodata"))
+    if case.get("fdnodata") is not None:
+        labels.add("float-flow-grid-with-own-nodata")
     if case.get("bounds") and field is not None:
         labels.add("field-with-data-bounds")
     if case["cap"] != -1:
@@ -313,8 +328,10 @@ def large_oracle(case):
 SUBS = [
     Sub("C11.large-grids", large_oracle, enumerate=enum_large,
         shards=(8, 12)),
+    # (small grids: a call that has not come back after 90 s hangs - the
+    # termination clause for cyclic grids and reduced cell limits)
     Sub("C11.exhaustive-small-grids", exhaustive_oracle,
-        enumerate=enum_cases, shards=(16, 16)),
+        enumerate=enum_cases, shards=(16, 16), stall_s=90),
     Sub("C11.random-grids", random_oracle, strategy=random_case,
-        n=(300, 8000), shards=(8, 16)),
+        n=(300, 8000), shards=(8, 16), stall_s=90),
 ]
